@@ -12,7 +12,7 @@ from ..result import Result
 
 ID = "C08"
 TOL = 1e-9
-TOLERANCES = {"paired solutions (relative to max |phi|)": TOL}
+TOLERANCES = {"paired solutions (relative to max |phi|)": "max(1e-9, 1e-12*cond(step matrix)); pairs with cond >= 1e8 discarded"}
 RULE = ("Generated: a random low-dimensional problem P (all terms incl. TVD with any limiter, D/N/R/periodic BCs, alpha scalar/cell, "
         "sink, source, 2 steps) and one transformation: lift = insert a redundant axis (1..3 cells, non-uniform, no-flux or periodic, "
         "random invariant D and u components along it) for Grid1D->Grid2D (2 positions), Grid2D->Grid3D (3 positions), "
@@ -275,6 +275,23 @@ def check(case):
     base = _run(P)
     if not all(np.all(np.isfinite(x)) for x in base):
         res.discarded = True
+        res.discard_reason = 'nonfinite'
+        return res
+    # the two members of a pair are solved through different matrices: their rounding differs by cond*eps
+    cond = problem.step_condition(P)
+    if not cond < 1e8:
+        res.discarded = True
+        res.discard_reason = 'ill-conditioned'
+        return res
+    TOLC = max(TOL, 1e-12 * cond)
+    # scale of the data (a problem whose data are all zero has the zero solution: nothing to compare but rounding noise)
+    dscale = float(np.abs(np.array(P['init'], float)).max())
+    if P.get('gamma') is not None:
+        dscale = max(dscale, float(np.abs(np.array(P['gamma'], float)).max()) * P['dt'])
+    for e in P['bc']:
+        for sd in ('lo', 'hi'):
+            dscale = max(dscale, float(np.abs(np.array(e[sd]['c'], float)).max()))
+    if dscale == 0.0:
         return res
     d = dims_of(P['faces'])
     nd = len(d)
@@ -298,8 +315,8 @@ def check(case):
             for s in case['lifts']:
                 n = len(s['faces']) - 1
                 w = np.repeat(np.expand_dims(w, s['pos']), n, axis=s['pos'])
-            sc = max(np.abs(want).max(), 1e-300)
-            if not res.expect_small("lift", float(np.abs(b[innq] - w).max() / sc), TOL, f"{tag}:{P['scheme']}",
+            sc = max(np.abs(want).max(), 1e-6 * dscale)
+            if not res.expect_small("lift", float(np.abs(b[innq] - w).max() / sc), TOLC, f"{tag}:{P['scheme']}",
                                     f"solution on {Q['name']} with a redundant axis differs from the solution on {P['name']} "
                                     f"(scheme {P['scheme']}, new axis periodic={[s['periodic'] for s in case['lifts']]}, step {k + 1})"):
                 break
@@ -336,8 +353,8 @@ def check(case):
         want = tr(a)
         if kind == 'shift':
             want = _mask_corners(want)
-        sc = max(np.abs(a).max(), 1e-300)
-        if not res.expect_small(kind, float(np.abs(b - want).max() / sc) if b.shape == want.shape else float('inf'), TOL,
+        sc = max(np.abs(a).max(), 1e-6 * dscale)
+        if not res.expect_small(kind, float(np.abs(b - want).max() / sc) if b.shape == want.shape else float('inf'), TOLC,
                                 f"{tag}:{P['scheme']}", f"{kind} of the problem does not {kind} the solution incl. boundary values "
                                 f"({tag}, scheme {P['scheme']}, step {k + 1})",
                                 known='K7' if (case.get('demo') == 'K7' and kind == 'shift' and P['scheme'] in ('upwind', 'tvd')) else None):
